@@ -76,6 +76,14 @@ func (p c14) Gen(r *simhook.Rand, tier string, idx int) harness.Scenario {
 		arity := r.Intn(5)
 		a := world.Bins(recase(r, name, mode))
 		key := fmt.Sprintf("q%d:{%c%c}", k, 'a'+rune(r.Intn(26)), 'a'+rune(r.Intn(26)))
+		if r.Chance(1, 4) {
+			// other placements of braces (which part of the key is hashed decides the owner that must receive the command)
+			t := fmt.Sprintf("%c%c", 'a'+rune(r.Intn(26)), 'a'+rune(r.Intn(26)))
+			key = []string{
+				fmt.Sprintf("a}q%d{%s}c", k, t), fmt.Sprintf("}{q%d%s}", k, t), fmt.Sprintf("q%d{}%s", k, t), fmt.Sprintf("{q%d%s", k, t),
+				fmt.Sprintf("q%d}%s{", k, t), fmt.Sprintf("{%s}q%d{zz}", t, k), fmt.Sprintf("q%d{{%s}}", k, t), fmt.Sprintf("q%d%s", k, t),
+			}[r.Intn(8)]
+		}
 		vals := []string{key, "1", "2", "3"}
 		lname := strings.ToLower(name)
 		if lname == "sort" && r.Chance(1, 2) {
@@ -185,6 +193,36 @@ func (p c14) Gen(r *simhook.Rand, tier string, idx int) harness.Scenario {
 		sc.Conns = []ConnScript{{Name: "c0", Reqs: reqs}}
 		slot := cluster.Slot([]byte(mk))
 		sc.Faults = []Fault{{Kind: "layout", From: slot, To: slot, Dst: r.Intn(sc.Env.Masters), AfterSend: r.Intn(at)}}
+	} else if sc.Env.Masters > 1 && r.Chance(1, 4) {
+		// class "open-migration": a slot is slowly migrating from its owner A to B (its keys still on A); minutes into
+		// it the client reads keys of that slot that do not exist (A answers ASK, the proxy asks B after ASKING) and,
+		// right after each, writes a key that is still on A.  A stays the owner: apart from the command that follows
+		// an ASKING, nothing for that slot may be sent to B.
+		sc.Class += "+open-migration"
+		tag := fmt.Sprintf("{om%c%c}", 'a'+rune(r.Intn(26)), 'a'+rune(r.Intn(26)))
+		slot := cluster.Slot([]byte(tag))
+		per := cluster.NumSlots / sc.Env.Masters
+		a := slot / per
+		if a >= sc.Env.Masters {
+			a = sc.Env.Masters - 1
+		}
+		for i := 0; i < 4; i++ {
+			sc.Env.Preload = append(sc.Env.Preload, world.KV{K: world.Bin(fmt.Sprintf("omk%d%s", i, tag)), V: world.Bin(fmt.Sprintf("v%d", i))})
+		}
+		sc.MigStepMs = 60000
+		sc.Faults = []Fault{{Kind: "mig-start", From: slot, Dst: (a + 1 + r.Intn(sc.Env.Masters-1)) % sc.Env.Masters, OnCmd: "cluster", Nth: 1}}
+		sc.IdleFaults = true
+		blk := ConnScript{Name: "om"}
+		for i := 0; i < 4; i++ {
+			ak := fmt.Sprintf("omabsent%d%s", i, tag)
+			pk := fmt.Sprintf("omk%d%s", i, tag)
+			g := world.Request{Args: world.Bins("get", ak), Wait: true, Tag: ak}
+			if i == 0 {
+				g.Gap = 130000 // importing is set after one, migrating after two simulated minutes, the first key moves after three
+			}
+			blk.Reqs = append(blk.Reqs, g, world.Request{Args: world.Bins([]string{"set", "append", "getset"}[r.Intn(3)], pk, fmt.Sprintf("w%d", i)), Wait: true, Tag: pk})
+		}
+		sc.Conns = append(sc.Conns, blk)
 	} else if r.Chance(1, 4) {
 		// class "clusterdown": one master loses sight of the majority for a while and refuses keyed commands with
 		// CLUSTERDOWN; ownership does not change, so whatever the proxy does about the refusal (report it, ask for a
@@ -293,6 +331,17 @@ func (p c14) Run(t *testing.T, s harness.Scenario) harness.Outcome {
 								return
 							}
 						}
+					} else if len(sc.Faults) > 0 && sc.Faults[0].Kind == "mig-start" && len(args) > 1 && cluster.Slot(args[1]) == sc.Faults[0].From {
+						// open-migration: judged while the slot still belongs to the node it started on (a run whose timers
+						// are late may take minutes per hop; once the migration has been finalised the history of this
+						// request straddles an ownership change)
+						a0 := sc.Faults[0].From / (cluster.NumSlots / sc.Env.Masters)
+						if a0 >= sc.Env.Masters {
+							a0 = sc.Env.Masters - 1
+						}
+						if int(cl.Owner[sc.Faults[0].From]) != a0 {
+							return
+						}
 					} else if len(sc.Faults) > 0 && sc.Faults[0].Kind == "replica-move" && c.Name == "c0" && (len(w.faultSteps) == 0 || w.faultSteps[0] < 0 || sn.DoneStep >= w.faultSteps[0]) {
 						// the layout is changing under this request and the proxy cannot know yet: judged in the second block
 						return
@@ -326,6 +375,11 @@ func (p c14) Run(t *testing.T, s harness.Scenario) harness.Outcome {
 					}
 					for _, le := range mine {
 						n := cl.Nodes[le.Node]
+						if _, importing := n.Importing[cluster.Slot(key)]; importing && le.Asking {
+							// the one command after ASKING at the importing node of an open migration: what the protocol asks for
+							w.rt.Probe("c14.executed-after-asking")
+							continue
+						}
 						isOwner := le.Node == owner
 						isReplicaOfOwner := n.MasterOf == owner
 						if isReplicaOfOwner {
